@@ -319,11 +319,12 @@ class C13:
         # one common scalar: fix it on the largest entry of the textbook matrix
         idx = np.unravel_index(np.argmax(np.abs(M)), M.shape)
         kk = A[idx] / M[idx]
+        nm = c.get("name", "SWAP")
         if abs(abs(kk) ** 2 - k2) > 1e-9:
-            return f"{c['name']}: |k|^2 = {abs(kk) ** 2!r}, expected {k2!r}"
+            return f"{nm}: |k|^2 = {abs(kk) ** 2!r}, expected {k2!r}"
         d = np.max(np.abs(A - kk * M))
         if d > 1e-9:
-            return (f"{c['name']}(tq={c.get('tq')}, theta={c.get('theta')}): dual-rail amplitudes are not k * named matrix "
+            return (f"{nm}(tq={c.get('tq')}, theta={c.get('theta')}, q1={c.get('q1')}, q2={c.get('q2')}): dual-rail amplitudes are not k * named matrix "
                     f"(k={kk:.6g}, max deviation {d:.3g})")
         if k == "gate" and "Heralded" in c["name"]:
             res = sim.simulate(states)                               # every 2-photon output with the heralds satisfied
